@@ -9,7 +9,10 @@ buffer afterwards is exactly the buffer before — no plaintext, partial or comp
 (The `no_release_unless_ok_*` variants show the same for every non-`Ok` result, i.e. also when the
 Rust function panics on a too-small buffer.)
 The object API has no out-buffer; for it we show that `Ok m` is returned only when the
-authenticator check passed.
+authenticator check passed, that it never panics, and (stream) that a rejected pull leaves the state
+as it was along the code-shaped path `objPullRaw`.
+Counter-models of the two repaired defects (`openDetachedInplaceOld`, `openDetachedOld`, `pullOld`) show
+what the theorems exclude.
 -/
 namespace DryocVerif.Properties.C17
 open DryocVerif DryocVerif.Model.SecretBox
@@ -110,6 +113,48 @@ theorem failed_open_no_release_boxOpenDetachedInplace (P : Prims) (data mac n pk
     (boxOpenDetachedInplace P data mac n pk sk).buf = data :=
   failed_open_no_release_openDetachedInplace P data mac n _ h
 
+/-! ### box, precomputed-key forms (`crypto_box_*_afternm`)
+
+dryoc has `crypto_box_open_detached_afternm` and `…_afternm_inplace` (no `easy` `afternm` form exists in
+src/classic/crypto_box.rs); they are the secretbox functions called with the precomputed key, and the
+`pk`/`sk` forms above are these applied to `crypto_box_beforenm`. -/
+
+theorem boxOpenDetachedAfternm_eq (P : Prims) (buf mac c n k : Bytes) :
+    boxOpenDetachedAfternm P buf mac c n k = openDetached P buf mac c n k := rfl
+
+theorem boxOpenDetachedAfternmInplace_eq (P : Prims) (data mac n k : Bytes) :
+    boxOpenDetachedAfternmInplace P data mac n k = openDetachedInplace P data mac n k := rfl
+
+/-- `crypto_box_open_detached` is `crypto_box_open_detached_afternm` on `crypto_box_beforenm(pk, sk)` -/
+theorem boxOpenDetached_eq_afternm (P : Prims) (buf mac c n pk sk : Bytes) :
+    boxOpenDetached P buf mac c n pk sk = boxOpenDetachedAfternm P buf mac c n (beforenm P pk sk) := rfl
+
+theorem boxOpenDetachedInplace_eq_afternm (P : Prims) (data mac n pk sk : Bytes) :
+    boxOpenDetachedInplace P data mac n pk sk
+      = boxOpenDetachedAfternmInplace P data mac n (beforenm P pk sk) := rfl
+
+theorem no_release_unless_ok_boxOpenDetachedAfternm (P : Prims) (buf mac c n k : Bytes)
+    (h : (boxOpenDetachedAfternm P buf mac c n k).res ≠ .ok ()) :
+    (boxOpenDetachedAfternm P buf mac c n k).buf = buf :=
+  no_release_unless_ok_openDetached P buf mac c n k h
+
+theorem no_release_unless_ok_boxOpenDetachedAfternmInplace (P : Prims) (data mac n k : Bytes)
+    (h : (boxOpenDetachedAfternmInplace P data mac n k).res ≠ .ok ()) :
+    (boxOpenDetachedAfternmInplace P data mac n k).buf = data :=
+  no_release_unless_ok_openDetachedInplace P data mac n k h
+
+/-- `crypto_box_open_detached_afternm`: on `Err` the message buffer is untouched -/
+theorem failed_open_no_release_boxOpenDetachedAfternm (P : Prims) (buf mac c n k : Bytes)
+    (h : (boxOpenDetachedAfternm P buf mac c n k).res = .err) :
+    (boxOpenDetachedAfternm P buf mac c n k).buf = buf :=
+  failed_open_no_release_openDetached P buf mac c n k h
+
+/-- `crypto_box_open_detached_afternm_inplace`: on `Err` the buffer still holds the ciphertext -/
+theorem failed_open_no_release_boxOpenDetachedAfternmInplace (P : Prims) (data mac n k : Bytes)
+    (h : (boxOpenDetachedAfternmInplace P data mac n k).res = .err) :
+    (boxOpenDetachedAfternmInplace P data mac n k).buf = data :=
+  failed_open_no_release_openDetachedInplace P data mac n k h
+
 /-! ### sealed box -/
 
 theorem no_release_unless_ok_sealOpen (P : Prims) (buf ct rpk rsk : Bytes)
@@ -198,6 +243,50 @@ theorem objUnseal_ok_only_if_mac (P : Prims) (b : Box) (rpk rsk m : Bytes)
   · rename_i epk he
     exact ⟨epk, he, objBoxDecrypt_ok_only_if_mac P b _ epk rsk m h⟩
 
+/-- `DryocSecretBox::decrypt` never panics (the message buffer it allocates always has the right size) -/
+theorem objDecrypt_never_panics (P : Prims) (b : Box) (n k : Bytes) : objDecrypt P b n k ≠ .panic := by
+  rw [objDecrypt_eq]
+  split <;> simp
+
+/-- `DryocBox::decrypt` never panics -/
+theorem objBoxDecrypt_never_panics (P : Prims) (b : Box) (n pk sk : Bytes) :
+    objBoxDecrypt P b n pk sk ≠ .panic :=
+  objDecrypt_never_panics P b n _
+
+/-- `DryocBox::unseal` never panics -/
+theorem objUnseal_never_panics (P : Prims) (b : Box) (rpk rsk : Bytes) : objUnseal P b rpk rsk ≠ .panic := by
+  unfold objUnseal
+  split
+  · simp
+  · exact objBoxDecrypt_never_panics P b _ _ rsk
+
+/-- `DryocBox::unseal` returns `Err` (no payload) for a box without ephemeral key, and for a box whose tag
+is not the authenticator recomputed under the key and nonce derived from its ephemeral key -/
+theorem objUnseal_err_of_mac_ne (P : Prims) (b : Box) (rpk rsk : Bytes)
+    (h : ∀ epk, b.epk = some epk →
+      b.tag ≠ P.mac ((P.stream (beforenm P epk rsk) (sealNonce P epk rpk) (32 + b.data.length)).take 32) b.data) :
+    objUnseal P b rpk rsk = .err := by
+  unfold objUnseal
+  split
+  · rfl
+  · rename_i epk he
+    exact objBoxDecrypt_err_of_mac_ne P b _ epk rsk (h epk he)
+
+/-- … so the outcome of `unseal` is decided by the authenticator alone -/
+theorem objUnseal_ok_iff_mac (P : Prims) (b : Box) (rpk rsk : Bytes) :
+    (∃ m, objUnseal P b rpk rsk = .ok m) ↔
+      ∃ epk, b.epk = some epk ∧
+        b.tag = P.mac ((P.stream (beforenm P epk rsk) (sealNonce P epk rpk) (32 + b.data.length)).take 32) b.data := by
+  constructor
+  · rintro ⟨m, hm⟩
+    obtain ⟨epk, he, ht, _⟩ := objUnseal_ok_only_if_mac P b rpk rsk m hm
+    exact ⟨epk, he, ht⟩
+  · rintro ⟨epk, he, ht⟩
+    rw [objUnseal_eq, he]
+    simp only
+    rw [if_pos (by rw [expectedTag_def]; exact ht)]
+    exact ⟨_, rfl⟩
+
 /-! ### secretstream (re-exported from C03, statement written out) -/
 
 /-- a rejected stream `pull` releases nothing: the caller's message buffer and tag variable are exactly
@@ -210,6 +299,158 @@ theorem stream_failed_pull_no_release (P : Model.SecretStream.Prims) (s : Model.
     (Model.SecretStream.pull P s m tagv ct ad).buf = m ∧
     (Model.SecretStream.pull P s m tagv ct ad).tag = tagv :=
   C03.failed_pull_preserves P s m tagv ct ad h
+
+/-- `DryocStream<Pull>::pull` with the state threaded exactly as the Rust does (`objPullRaw`: the classic
+`pull` runs on `&mut self.state` and the `?` returns early on `Err`, so the state afterwards is whatever the
+classic `pull` left) is the same function as the model's `objPull`, which names the OLD state on its error
+branches — because a rejected classic `pull` does not modify the state (`C03.failed_pull_preserves`). -/
+theorem objPullRaw_eq_objPull (P : Model.SecretStream.Prims) (s : Model.SecretStream.State) (ct ad : Bytes) :
+    Model.SecretStream.objPullRaw P s ct ad = Model.SecretStream.objPull P s ct ad :=
+  Proofs.SecretStream.objPullRaw_eq_objPull P s ct ad
+
+/-- a rejected `DryocStream::pull` leaves the stream state as it was — stated for the code-shaped
+`objPullRaw`, where it is NOT true by definition -/
+theorem objPullRaw_err_keeps_state (P : Model.SecretStream.Prims) (s : Model.SecretStream.State) (ct ad : Bytes)
+    (h : (Model.SecretStream.objPullRaw P s ct ad).1 = .err) :
+    (Model.SecretStream.objPullRaw P s ct ad).2 = s := by
+  rw [objPullRaw_eq_objPull] at h ⊢
+  exact Proofs.SecretStream.objPull_err_state P s ct ad h
+
+/-- the same for `objPull` (there it holds by the shape of the definition; `objPullRaw_eq_objPull` is what
+ties that shape to the code) -/
+theorem objPull_err_keeps_state (P : Model.SecretStream.Prims) (s : Model.SecretStream.State) (ct ad : Bytes)
+    (h : (Model.SecretStream.objPull P s ct ad).1 = .err) :
+    (Model.SecretStream.objPull P s ct ad).2 = s :=
+  Proofs.SecretStream.objPull_err_state P s ct ad h
+
+/-- `DryocStream::pull` never panics: anything but `Ok` is `Err`, and carries no payload -/
+theorem objPull_never_panics (P : Model.SecretStream.Prims) (s : Model.SecretStream.State) (ct ad : Bytes) :
+    (Model.SecretStream.objPull P s ct ad).1 ≠ .panic :=
+  Proofs.SecretStream.objPull_never_panics P s ct ad
+
+/-- `DryocStream::pull` returns a payload only if the last 16 bytes of the ciphertext are the authenticator
+recomputed at this stream position -/
+theorem objPull_ok_only_if_mac (P : Model.SecretStream.Prims) (s : Model.SecretStream.State) (ct ad : Bytes)
+    (mt : Bytes × UInt8) (h : (Model.SecretStream.objPull P s ct ad).1 = .ok mt) :
+    17 ≤ ct.length ∧
+    ct.drop (1 + (ct.length - 17)) = Proofs.SecretStream.pullMac P s ct ad := by
+  rcases Proofs.SecretStream.objPull_cases P s ct ad with h' | ⟨r, hr, hok, _⟩
+  · rw [h'] at h; cases h
+  · rw [hr] at hok
+    obtain ⟨h1, _, _, h4⟩ := (Proofs.SecretStream.pull_ok_iff P s _ _ ct ad _).mp hok
+    exact ⟨h1, h4⟩
+
+/-! ### counter-models of the repaired defects
+
+The shapes the code had before the fixes "secretbox/box open verifies the authenticator before decrypting"
+and "secretstream pull releases tag and plaintext only after authentication".  They differ from the model
+only in the ORDER of decrypting and verifying; the theorems above are false for them, which is what the
+differential check of this property detects. -/
+
+/-- pre-fix `crypto_secretbox_open_detached_inplace`: Poly1305 over `data`, then
+`cipher.apply_keystream(data)`, and only then the verdict of the comparison -/
+def openDetachedInplaceOld (P : Prims) (data mac nonce key : Bytes) : Opened :=
+  let ks := P.stream key nonce (32 + data.length)
+  let macKey := ks.take 32
+  let computed := P.mac macKey data
+  let out := xorBytes data (ks.drop 32)
+  if mac = computed then ⟨.ok (), out⟩ else ⟨.err, out⟩
+
+/-- pre-fix `crypto_secretbox_open_detached`: `message[..c_len].copy_from_slice(ciphertext)`, then the
+in-place function on the whole `message` buffer -/
+def openDetachedOld (P : Prims) (m mac ct nonce key : Bytes) : Opened :=
+  if m.length < ct.length then ⟨.panic, m⟩
+  else openDetachedInplaceOld P (ct ++ m.drop ct.length) mac nonce key
+
+/-- the old and the repaired in-place function return the same verdict, and the same buffer on `Ok` … -/
+theorem openDetachedInplaceOld_res (P : Prims) (data mac n k : Bytes) :
+    (openDetachedInplaceOld P data mac n k).res = (openDetachedInplace P data mac n k).res ∧
+    ((openDetachedInplace P data mac n k).res = .ok () →
+      openDetachedInplaceOld P data mac n k = openDetachedInplace P data mac n k) := by
+  unfold openDetachedInplaceOld openDetachedInplace
+  simp only
+  split <;> simp
+
+/-- … but the old one hands the caller the decryption of the ciphertext whatever the verdict, so also on `Err` -/
+theorem openDetachedInplaceOld_buf (P : Prims) (data mac n k : Bytes) :
+    (openDetachedInplaceOld P data mac n k).buf
+      = xorBytes data ((P.stream k n (32 + data.length)).drop 32) := by
+  unfold openDetachedInplaceOld
+  simp only
+  split <;> rfl
+
+/-- the defect, concretely: forged tag, result `Err`, buffer changed (the toy key stream is `5a 5a …`) -/
+theorem old_open_releases :
+    ∃ P d mac n k, (openDetachedInplaceOld P d mac n k).res = .err ∧
+      (openDetachedInplaceOld P d mac n k).buf ≠ d :=
+  ⟨toyPrims, [1, 1, 1], zeros 16, toyNonce, toyKey, by decide, by decide⟩
+
+example : openDetachedInplaceOld toyPrims [1, 1, 1] (zeros 16) toyNonce toyKey = ⟨.err, [0x5b, 0x5b, 0x5b]⟩ := by
+  decide
+
+/-- `failed_open_no_release_openDetachedInplace` is exactly the statement the old shape violates -/
+theorem old_open_violates_no_release :
+    ¬ ∀ (P : Prims) (data mac n k : Bytes), (openDetachedInplaceOld P data mac n k).res = .err →
+        (openDetachedInplaceOld P data mac n k).buf = data := by
+  intro h
+  exact absurd (h toyPrims [1, 1, 1] (zeros 16) toyNonce toyKey (by decide)) (by decide)
+
+/-- the old detached form: a failed open leaves the decrypted forgery in the caller's message buffer -/
+theorem old_openDetached_releases :
+    ∃ P buf mac c n k, (openDetachedOld P buf mac c n k).res = .err ∧ (openDetachedOld P buf mac c n k).buf ≠ buf :=
+  ⟨toyPrims, [4, 4, 4], zeros 16, [1, 1, 1], toyNonce, toyKey, by decide, by decide⟩
+
+open Model.SecretStream in
+/-- pre-fix `crypto_secretstream_xchacha20poly1305_pull`: `*tag = block[0]`, the ciphertext copied into
+`message` and decrypted there, all BEFORE the authenticator is compared; on mismatch `Err` is returned with
+the tag variable and the message buffer already overwritten (the state was not yet touched) -/
+def pullOld (P : Model.SecretStream.Prims) (s : State) (m : Bytes) (tagv : UInt8) (ct ad : Bytes) : Pulled :=
+  if ct.length < ABYTES then ⟨.err, m, tagv, s⟩
+  else
+    let mlen := ct.length - ABYTES
+    if m.length < mlen then ⟨.err, m, tagv, s⟩
+    else
+      let macKey := P.chacha s.k s.nonce 0 32
+      let dec := xorBytes (ct.take 1 ++ zeros 63) (P.chacha s.k s.nonce 1 64)
+      let tag := dec.headD 0
+      let block := ct.take 1 ++ dec.drop 1
+      let c := (ct.drop 1).take mlen
+      let mac := P.mac macKey (macInput ad block c)
+      let msg := xorBytes c (P.chacha s.k s.nonce 2 mlen)
+      if ct.drop (1 + mlen) ≠ mac then ⟨.err, msg ++ m.drop mlen, tag, s⟩
+      else ⟨.ok mlen, msg ++ m.drop mlen, tag, advance P s mac tag⟩
+
+/-- same verdict as the repaired `pull`, same everything on `Ok` … -/
+theorem pullOld_res (P : Model.SecretStream.Prims) (s : Model.SecretStream.State) (m : Bytes) (tagv : UInt8)
+    (ct ad : Bytes) :
+    (pullOld P s m tagv ct ad).res = (Model.SecretStream.pull P s m tagv ct ad).res ∧
+    (∀ n, (Model.SecretStream.pull P s m tagv ct ad).res = .ok n →
+      pullOld P s m tagv ct ad = Model.SecretStream.pull P s m tagv ct ad) := by
+  unfold pullOld Model.SecretStream.pull
+  split
+  · simp
+  · simp only
+    split
+    · simp
+    · split <;> simp
+
+/-- … but a rejected ciphertext has already been decrypted into the caller's buffer and tag variable -/
+theorem old_pull_releases :
+    ∃ P s m tagv ct ad, (pullOld P s m tagv ct ad).res = .err ∧
+      (pullOld P s m tagv ct ad).buf ≠ m ∧ (pullOld P s m tagv ct ad).tag ≠ tagv ∧
+      (pullOld P s m tagv ct ad).st = s :=
+  ⟨C03.toyP, C03.toyS, [9, 9, 9], 7, [1, 2] ++ zeros 16, [0x42], by decide, by decide, by decide, by decide⟩
+
+example : pullOld C03.toyP C03.toyS [9, 9, 9] 7 ([1, 2] ++ zeros 16) [0x42] = ⟨.err, [1, 9, 9], 3, C03.toyS⟩ := by
+  decide
+
+/-- `stream_failed_pull_no_release` is exactly the statement the old shape violates -/
+theorem old_pull_violates_no_release :
+    ¬ ∀ (P : Model.SecretStream.Prims) (s : Model.SecretStream.State) (m : Bytes) (tagv : UInt8) (ct ad : Bytes),
+        (pullOld P s m tagv ct ad).res = .err →
+        (pullOld P s m tagv ct ad).buf = m ∧ (pullOld P s m tagv ct ad).tag = tagv := by
+  intro h
+  exact absurd (h C03.toyP C03.toyS [9, 9, 9] 7 ([1, 2] ++ zeros 16) [0x42] (by decide)).1 (by decide)
 
 /-! ### non-vacuity: the `Err` premise is reachable (toy instance, forged tags) -/
 
@@ -256,6 +497,36 @@ example : (openEasy toyPrims [4] (List.replicate 19 1) toyNonce toyKey).buf = [4
 example : ∃ b, objEncrypt toyPrims toyMsg toyNonce toyKey = .ok b ∧
     b.tag = toyPrims.mac ((toyPrims.stream toyKey toyNonce (32 + b.data.length)).take 32) b.data :=
   ⟨_, rfl, (objDecrypt_ok_only_if_mac toyPrims _ toyNonce toyKey toyMsg (by decide)).1⟩
+
+/-- the precomputed-key forms -/
+example : (boxOpenDetachedAfternm toyPrims [4, 4, 4] (zeros 16) [1, 1, 1] toyNonce toyKey).buf = [4, 4, 4] :=
+  failed_open_no_release_boxOpenDetachedAfternm toyPrims _ _ _ _ _ (by decide)
+
+example : (boxOpenDetachedAfternmInplace toyPrims [1, 1, 1] (zeros 16) toyNonce toyKey).buf = [1, 1, 1] :=
+  failed_open_no_release_boxOpenDetachedAfternmInplace toyPrims _ _ _ _ (by decide)
+
+/-- `stream_failed_pull_no_release`: a full-length ciphertext with a forged authenticator reaches the MAC
+comparison and is rejected there (not by a length check) — the `Err` premise is met on the interesting path -/
+example : Model.SecretStream.pull C03.toyP C03.toyS [9, 9, 9] 7 ([1, 2] ++ zeros 16) [0x42]
+    = ⟨.err, [9, 9, 9], 7, C03.toyS⟩ := by decide
+
+example : (Model.SecretStream.pull C03.toyP C03.toyS [9, 9, 9] 7 ([1, 2] ++ zeros 16) [0x42]).buf = [9, 9, 9] :=
+  (stream_failed_pull_no_release C03.toyP C03.toyS _ _ _ _ (by decide)).2.1
+
+/-- `objPullRaw_err_keeps_state` / `objPull_err_keeps_state`: the same forged ciphertext at the object layer -/
+example : (Model.SecretStream.objPullRaw C03.toyP C03.toyS ([1, 2] ++ zeros 16) [0x42]).2 = C03.toyS :=
+  objPullRaw_err_keeps_state C03.toyP C03.toyS _ _ (by decide)
+
+/-- `objUnseal_err_of_mac_ne`: a sealed box with a forged tag -/
+example : objUnseal toyPrims ⟨some toyEsk, zeros 16, [1, 1, 1]⟩ toyRpk toyRsk = .err :=
+  objUnseal_err_of_mac_ne toyPrims _ _ _ (by
+    intro epk he
+    cases he
+    decide)
+
+/-- … and `Ok` is reachable for `unseal` (so `objUnseal_ok_iff_mac` is not vacuous on either side) -/
+example : ∃ b, objSeal toyPrims toyMsg toyRpk toyEsk = .ok b ∧ objUnseal toyPrims b toyRpk toyRsk = .ok toyMsg :=
+  ⟨_, rfl, by decide⟩
 
 end NonVacuity
 
